@@ -185,10 +185,16 @@ var surveySeen = map[string]bool{}
 
 // runC01CLI drives one schema family through evalC01CLI.
 func runC01CLI(c *core.Ctx, name string, n, salt int, gen func(*rapid.T, *core.Ctx) (*gen.Case, *model.File)) {
+	runC01Family(c, name, n, salt, gen, evalC01CLI, "typecheck-cli", 150)
+}
+
+// runC01Family drives one schema family with the given evaluator.
+func runC01Family(c *core.Ctx, name string, n, salt int, gen func(*rapid.T, *core.Ctx) (*gen.Case, *model.File),
+	eval func(*gen.Case) (string, []string), check string, budget int) {
 	var last *core.Replay
 	res := c.Rapid(name, n, salt, func(rt *rapid.T) {
 		cs, _ := gen(rt, c)
-		st, probs := evalC01CLI(cs)
+		st, probs := eval(cs)
 		c.Eval(1)
 		c.Count(name + ".status." + strings.SplitN(st, ":", 2)[0])
 		if strings.HasPrefix(st, "infra") {
@@ -206,22 +212,22 @@ func runC01CLI(c *core.Ctx, name string, n, salt int, gen func(*rapid.T, *core.C
 			c.SurveyAdd(key, strings.Join(cs.Config.Args(), " ")+"\n"+strings.Join(probs, "\n"))
 			if !surveySeen[key] {
 				surveySeen[key] = true
-				r := &core.Replay{Check: "typecheck-cli", Case: cs, Observed: strings.Join(probs, "\n")}
-				reduceC01(r, evalC01CLI, 150)
+				r := &core.Replay{Check: check, Case: cs, Observed: strings.Join(probs, "\n")}
+				reduceC01(r, eval, budget)
 				c.SurveyReplay(key, r)
 			}
 			return
 		}
 		if len(probs) > 0 {
-			last = &core.Replay{Check: "typecheck-cli", Case: cs, Expected: "the run terminates and every emitted file parses, is gofmt-stable and type-checks", Observed: strings.Join(probs, "\n")}
+			last = &core.Replay{Check: check, Case: cs, Expected: "the run terminates and every emitted file parses, is gofmt-stable and type-checks", Observed: strings.Join(probs, "\n")}
 			rt.Fatalf("C01: %s", probs[0])
 		}
 	})
 	c.Extra(name+"_rapid_passed", res.Passed)
 	if res.Failed {
 		if last != nil {
-			reduceC01(last, evalC01CLI, 150)
-			c.Violation("typecheck-cli:"+name+":"+firstLine(last.Observed), firstLine(last.Observed), last)
+			reduceC01(last, eval, budget)
+			c.Violation(check+":"+name+":"+firstLine(last.Observed), firstLine(last.Observed), last)
 		} else {
 			c.Infra("rapid failed without a recorded case: " + core.Clip(res.Msg, 500))
 		}
@@ -285,6 +291,9 @@ func genC01Case(t *rapid.T, c *core.Ctx) (*gen.Case, *model.File) {
 	if rapid.IntRange(0, 7).Draw(t, "localnames") == 0 {
 		addLocalIdentifierDefs(t, c, f)
 	}
+	if rapid.IntRange(0, 4).Draw(t, "extensions") == 0 {
+		addExtensionProps(t, c, f)
+	}
 	if rapid.IntRange(0, 3).Draw(t, "hastitle") == 0 {
 		f.Title = rapid.SampledFrom([]string{"My Title", "thing", "a b-c", "Ünï cödé", "9 lives", "日本", "x*y", "  padded  "}).Draw(t, "title")
 	}
@@ -293,6 +302,133 @@ func genC01Case(t *rapid.T, c *core.Ctx) (*gen.Case, *model.File) {
 		f.RelPath = "prog.yaml"
 	}
 	cfg := drawOptions(t)
+	return caseOf(cfg, []string{f.RelPath}, f), f
+}
+
+// consistentExtensions: goJSONSchema extension objects whose type, imports and
+// nillable flag agree (an inconsistent one is user error). Several name a
+// package the generator imports on its own account, under its own alias.
+var consistentExtensions = []model.Ext{
+	{Type: "time.Duration", Imports: []string{"time"}},
+	{Type: "big.Int", Imports: []string{"math/big"}},
+	{Type: "url.URL", Imports: []string{"net/url"}},
+	{Type: "yaml.Node", Imports: []string{"gopkg.in/yaml.v3"}},
+	{Type: "json.RawMessage", Imports: []string{"encoding/json"}, Nillable: true},
+	{Type: "fmt.Stringer", Imports: []string{"fmt"}, Nillable: true},
+	{Type: "*regexp.Regexp", Imports: []string{"regexp"}, Nillable: true},
+	{Type: "netip.Prefix", Imports: []string{"net/netip"}},
+	{Type: "types.SerializableDate", Imports: []string{"github.com/atombender/go-jsonschema/pkg/types"}},
+	{Type: "[]byte", Nillable: true},
+	{Identifier: "CustomFieldName"},
+}
+
+// addExtensionProps adds 1-3 root properties (optional or required) that carry
+// an extension object.
+func addExtensionProps(t *rapid.T, c *core.Ctx, f *model.File) {
+	if f.Root.Kind != model.KObject {
+		return
+	}
+	n := rapid.IntRange(1, 3).Draw(t, "nexts")
+	for i := 0; i < n; i++ {
+		e := rapid.SampledFrom(consistentExtensions).Draw(t, "ext")
+		node := &model.Node{Kind: model.KString, Ext: &e}
+		if e.Type == "" {
+			node.Kind = rapid.SampledFrom([]model.Kind{model.KString, model.KInteger, model.KBoolean}).Draw(t, "extkind")
+		}
+		name := fmt.Sprintf("zext%d", i)
+		f.Root.Props = append(f.Root.Props, model.Prop{Name: name, Node: node})
+		if rapid.Bool().Draw(t, "extrequired") {
+			f.Root.Required = append(f.Root.Required, name)
+		}
+		c.Count("shape.extension." + e.Type + e.Identifier)
+	}
+}
+
+// genC01Tiny: one to three properties, each with at most one constraint, no
+// definitions unless referenced, rarely a required key: the schemas in which a
+// single feature decides alone whether fmt, errors, regexp, math, reflect, time
+// ... are imported.
+func genC01Tiny(t *rapid.T, c *core.Ctx) (*gen.Case, *model.File) {
+	f := &model.File{RelPath: "prog.json", ID: "https://example.com/prog"}
+	f.Root = &model.Node{Kind: model.KObject}
+	one := func(label string) *model.Node {
+		iv := func(v int) *int { return &v }
+		fv := func(v float64) *float64 { return &v }
+		var n *model.Node
+		switch rapid.IntRange(0, 19).Draw(t, label) {
+		case 0:
+			n = &model.Node{Kind: model.KInteger, MultipleOf: fv(float64(rapid.SampledFrom([]int{1, 2, 10}).Draw(t, label+"m")))}
+		case 1:
+			n = &model.Node{Kind: model.KNumber, MultipleOf: fv(rapid.SampledFrom([]float64{1, 0.5, 2.5}).Draw(t, label+"m"))}
+		case 2:
+			n = &model.Node{Kind: model.KInteger, Minimum: fv(float64(rapid.IntRange(-3, 300).Draw(t, label+"v")))}
+		case 3:
+			n = &model.Node{Kind: model.KNumber, Maximum: fv(float64(rapid.IntRange(-3, 300).Draw(t, label+"v")) / 4)}
+		case 4:
+			n = &model.Node{Kind: model.KInteger, ExclMin: &model.Excl{N: float64(rapid.IntRange(-3, 300).Draw(t, label+"v"))}}
+		case 5:
+			n = &model.Node{Kind: model.KNumber, ExclMax: &model.Excl{N: float64(rapid.IntRange(-3, 300).Draw(t, label+"v"))}}
+		case 6:
+			n = &model.Node{Kind: model.KString, MinLength: iv(rapid.IntRange(0, 3).Draw(t, label+"v"))}
+		case 7:
+			n = &model.Node{Kind: model.KString, MaxLength: iv(rapid.IntRange(0, 3).Draw(t, label+"v"))}
+		case 8:
+			n = &model.Node{Kind: model.KString, Pattern: "^[a-z]+$"}
+		case 9:
+			n = &model.Node{Kind: model.KString, Format: rapid.SampledFrom([]string{"date", "time", "date-time", "ipv4", "ipv6"}).Draw(t, label+"f")}
+		case 10:
+			n = &model.Node{Kind: model.KArray, Items: &model.Node{Kind: model.KString}, MinItems: iv(rapid.IntRange(0, 2).Draw(t, label+"v"))}
+		case 11:
+			n = &model.Node{Kind: model.KArray, Items: &model.Node{Kind: model.KInteger}, MaxItems: iv(rapid.IntRange(0, 2).Draw(t, label+"v"))}
+		case 12:
+			n = &model.Node{Kind: model.KEnum, EnumVals: []jv.V{jv.StrV("a"), jv.StrV("b")}}
+		case 13:
+			n = &model.Node{Kind: model.KEnum, EnumVals: []jv.V{jv.IntV(1), jv.StrV("b"), jv.NullV()}}
+		case 14:
+			n = &model.Node{Kind: model.KObject, Additional: &model.Additional{Schema: &model.Node{Kind: model.KInteger}}}
+		case 15:
+			n = &model.Node{Kind: model.KNull}
+		case 16:
+			n = &model.Node{Kind: model.KBoolean}
+		case 17:
+			n = &model.Node{Kind: model.KArray, Items: &model.Node{Kind: model.KArray, Items: &model.Node{Kind: model.KNumber}, MaxItems: iv(2)}}
+		case 18:
+			n = &model.Node{Kind: model.KObject, Props: []model.Prop{{Name: "in", Node: &model.Node{Kind: model.KString}}}}
+		default:
+			n = &model.Node{Kind: model.KAny}
+		}
+		if n.Kind != model.KEnum && n.Kind != model.KAny && n.Kind != model.KNull && rapid.IntRange(0, 3).Draw(t, label+"null") == 0 {
+			n.Nullable = true
+			n.NullFirst = rapid.Bool().Draw(t, label+"nf")
+		}
+		return n
+	}
+	np := rapid.IntRange(1, 3).Draw(t, "nprops")
+	for i := 0; i < np; i++ {
+		n := one(fmt.Sprintf("p%d", i))
+		name := fmt.Sprintf("p%d", i)
+		switch rapid.IntRange(0, 5).Draw(t, name+"place") {
+		case 0: // through a definition
+			n.Nullable = false
+			if n.Kind == model.KNumber && n.MultipleOf != nil && c.Avoid("numbers.named_float_multipleof") {
+				c.ExcludedMap()["numbers.named_float_multipleof"]++
+				n.MultipleOf = nil
+			}
+			dn := fmt.Sprintf("D%d", i)
+			f.Defs = append(f.Defs, model.Def{Name: dn, Node: n})
+			n = &model.Node{Kind: model.KRef, Ref: "#/$defs/" + dn, Target: n}
+		case 1: // as array items
+			n.Nullable = false
+			n = &model.Node{Kind: model.KArray, Items: n}
+		case 2:
+			f.Root.Required = append(f.Root.Required, name)
+		}
+		f.Root.Props = append(f.Root.Props, model.Prop{Name: name, Node: n})
+	}
+	cfg := baseConfig()
+	cfg.ExtraImports = rapid.Bool().Draw(t, "extraImports")
+	cfg.OnlyModels = rapid.IntRange(0, 5).Draw(t, "onlyModels") == 0
+	cfg.MinSizedInts = rapid.Bool().Draw(t, "minSizedInts")
 	return caseOf(cfg, []string{f.RelPath}, f), f
 }
 
@@ -383,6 +519,7 @@ func TestC01(t *testing.T) {
 			rt.Fatalf("C01: %s", probs[0])
 		}
 	})
+	runC01Family(c, "tiny", c.N(1500, 40000), 12, genC01Tiny, evalC01, "typecheck", 300)
 	runC01CLI(c, "mixed", c.N(500, 12000), 1, genC01Mixed)
 	runC01CLI(c, "cycles", c.N(250, 6000), 2, genC01Cycles)
 	c.Extra("feature_signatures", len(sigs))
